@@ -33,6 +33,7 @@ TETS = {
 }
 POTS = {"corner": np.array([1.0, 0.0, 0.0, 0.0]), "regular": np.array([0.0, 0.0, 0.0, 0.7]), "sliver": np.array([0.0, 0.0, 0.0, 0.5])}
 TRANS = [np.array(v, dtype=float) * 0.25 for v in itertools.product((-2, -1, 0, 1, 2), repeat=3)]
+TRANS_FINE = [np.array(v, dtype=float) * 0.125 for v in itertools.product(range(-4, 5), repeat=3)]
 MODULI = [(1.0, 1.0), (0.01, 100.0), (100.0, 1.0)]
 BODY_PLACEMENTS = ["stack_z_small", "stack_z_deep", "offset_xy", "side_x", "separated", "touching"]
 BODY_ORIS = [0, 5, 24, 26]
@@ -55,14 +56,21 @@ def enumerate_states(tier, seed):
                 states.append({"kind": "tets", "tet": name, "rot": r, "mod": mi})
         for r in range(sc.N_CUBE, sc.N_CUBE + 2):
             states.append({"kind": "tets", "tet": name, "rot": r, "mod": 0})
+        if tier == "thorough":
+            for r in range(sc.N_CUBE + 2, len(sc.ALL_ROTS)):
+                states.append({"kind": "tets", "tet": name, "rot": r, "mod": 0})
+            for r in range(sc.N_CUBE):
+                states.append({"kind": "tets", "tet": name, "rot": r, "mod": 0, "fine": 1})
     for fa, fb in itertools.product(hydro.FACTORIES, hydro.FACTORIES):
         for pl in range(len(BODY_PLACEMENTS)):
-            for o in (BODY_ORIS if tier == "thorough" else BODY_ORIS[:3]):
+            for o in (range(len(sc.ROTS)) if tier == "thorough" else BODY_ORIS[:3]):
                 states.append({"kind": "bodies", "a": fa, "b": fb, "pl": pl, "ob": o, "g": 0})
         states.append({"kind": "bodies", "a": fa, "b": fb, "pl": 0, "ob": 0, "g": 1})
         states.append({"kind": "bodies", "a": fa, "b": fb, "pl": 2, "ob": 5, "g": 2})
     return states, {"bound_completed": "3 reference tetrahedra x 26 rotations x 125 lattice translations x moduli, both argument orders; "
-                                       "36 body pairs x 6 placements x %d orientations + 2 moved frames" % (4 if tier == "thorough" else 3),
+                                       "36 body pairs x 6 placements x %d orientations + 2 moved frames%s" % (32 if tier == "thorough" else 3,
+                                           "; thorough: + 678 further rotations and a 9x9x9 translation lattice (step 0.125) for the 24 cube rotations"
+                                           if tier == "thorough" else ""),
                     "exhaustive": True}
 
 
@@ -152,7 +160,7 @@ def run_tets(desc):
     name = desc["tet"]
     t1 = np.ascontiguousarray(TETS[name])
     e1 = POTS[name].copy()
-    R = sc.ROTS[desc["rot"]]
+    R = sc.ALL_ROTS[desc["rot"]]
     E1, E2 = MODULI[desc["mod"]]
     cls = "%s:%s" % (name, "cube_rot" if desc["rot"] < sc.N_CUBE else "generic_rot")
     viol, seen = [], set()
@@ -164,7 +172,7 @@ def run_tets(desc):
     n_eval, nontriv = 0, 0
     X1 = np.ascontiguousarray(hc.barycentric_transforms(t1[np.newaxis])[0])
     for other in TETS:
-        for ti, tr in enumerate(TRANS):
+        for ti, tr in enumerate(TRANS_FINE if desc.get("fine") else TRANS):
             t2 = np.ascontiguousarray(TETS[other] @ R.T + tr)
             e2 = POTS[other].copy()
             X2 = np.ascontiguousarray(hc.barycentric_transforms(t2[np.newaxis])[0])
